@@ -5,6 +5,7 @@
      op = (n0 n<t> n<isComment> x<single line> n<cap the runtime gives a reallocation>)
         | (n1 n<t> idopt) | (n2 n<t> typeopt) | (n3 n<t> z<retry>) | (n4 n<t>) Clone | (n5 n<t>) reset
         | (n7 n<t> x<line> n<cap>)  m_t.UnmarshalText("data: <line>\n\n")
+        | (n9 n<s>)  the ValidReplayers' clock advances by s seconds (TTL 1000 s) and GC() is called on them
         | (n6 n<t> n<replayer: 0 finite auto, 1 valid auto, 2 finite manual, 3 valid manual>)  Put; with automatic IDs the
           returned copy joins the family; with explicit IDs (and for every rejected Put) nothing at all happens to any message
    output: (((arropt n<len> n<cap> x<wire>) ...) ...)   one list of member states per operation *)
@@ -22,6 +23,7 @@ Definition dec_hop (s : hrun_state) (op : val) : list hop * hrun_state :=
   | 3%N => ([HSetRetry t (as_z (nth_val 2 op))], s)
   | 4%N => ([HClone t], s)
   | 5%N => ([HReset t], s)
+  | 9%N => ([], s)   (* the ValidReplayers' clock advances and they collect: no message of the family is concerned *)
   | 7%N => (* UnmarshalText("data: <line>\n\n"): reset(), then one data chunk is appended *)
            ([HReset t; HAppend t [(mkc (as_b (nth_val 2 op)) false, as_nat (nth_val 3 op))]], s)
   | _ =>
@@ -64,6 +66,7 @@ Definition dec_vop_heap (s : vrun_state) (op : val) : list hop * vrun_state :=
   | 3%N => ([HSetRetry t (as_z (nth_val 2 op))], s)
   | 4%N => ([HClone t], s)
   | 5%N => ([HReset t], s)
+  | 9%N => ([], s)
   | 7%N => ([HReset t; HAppend t [(mkc (as_b (nth_val 2 op)) false, 0)]], s)
   | _ =>
       match nth_error (vr_fam s) t with
